@@ -57,3 +57,17 @@ CHECKS["C10"] = {
              "(warning-only lists making INVALID is reported under C08). Facts about values computed by callees other than the schema lookups and "
              "Validator.validate are unknown (top). Lookup purity is an assumption discharged by C06 R06.3."),
 }
+
+CHECKS["C06"] = {
+    "technique": "static analysis: effect analysis over the call graph (ambient reads), set-order-leak lint with local set typing, module/class state write analysis incl. accessor aliases, statelessness of tool classes, await reachability",
+    "text": ("Decides over every function reachable from the pipeline entry points and every function of the pure modules: no read of environment, cwd, home, clock, "
+             "random, locale, id()/hash(), or unsorted directory listings except a frozen, reasoned allow-list (routing timestamp, cwd-relative schema directories "
+             "ordered after the packaged ones, ~/.octave standards cache); no set-typed expression is iterated/joined/listed without an order-insensitive "
+             "wrapper; no module-level or class-level binding is written after import (stores, mutating calls, global rebinding, cross-module writes, writes "
+             "through the alias returned by get_builtin_schema); tool classes store nothing on self outside __init__; the schema search order starts with "
+             "the __file__-derived directory; no await is reachable from any execute. These are the only ways, visible in the code, for a result to depend "
+             "on anything but the arguments and the named schema's text."),
+    "note": ("Byte equality across processes, hash seeds and locales is not executed. Receiver types are inferred locally (annotations, constructor calls); calls on "
+             "untyped receivers with generic method names are not followed, which is why whole pure modules are in scope regardless of reachability. Text-mode open() "
+             "without encoding= (3 sites) is recorded, not armed: all locales the property names decode UTF-8 under CPython 3.12."),
+}
